@@ -80,10 +80,11 @@ class MystReferenceResolver(ReferencesResolver):
             contnode = cast(nodes.TextElement, node[0].deepcopy())
             target = node["reftarget"]
             refdoc = node.get("refdoc", self.env.docname)
-            # the value set in the front matter of the referencing document, else global
+            # the value set in the front matter of the referencing document, else the
+            # validated global one (an invalid `myst_ref_domains` in conf.py is rejected)
             search_domains: None | list[str] = self.env.metadata.get(
                 refdoc, {}
-            ).get("myst_ref_domains", self.env.config.myst_ref_domains)
+            ).get("myst_ref_domains", self.env.myst_config.ref_domains)  # type: ignore[attr-defined]
 
             # try to resolve the reference within the local project,
             # this asks all domains to resolve the reference,
